@@ -57,6 +57,8 @@ package key
 //@   ensures [exactly-one-generator-call-per-pair] (calls(rsa.GenerateKey) - r0) + (calls(ecdsa.GenerateKey) - e0) + (calls(ed25519.GenerateKey) - d0) == 1
 //@   ensures [algorithm-selects-the-generator] (pka == 2 || pka == 3 || pka == 4) <==> calls(ecdsa.GenerateKey) == e0 + 1
 //@   ensures pka == 5 <==> calls(ed25519.GenerateKey) == d0 + 1
+//@   # the curve of an ECDSA pair is the one its algorithm constant names (secp256r1 / 384r1 / 521r1 = NIST P-256 / P-384 / P-521)
+//@   ensures [algorithm-selects-the-curve] calls(ecdsa.GenerateKey) == e0 + 1 ==> arg(ecdsa.GenerateKey, e0, 0) == ellOf(pka == 2 ? 256 : pka == 3 ? 384 : 521)
 //@   ensures [rsa-sizes] calls(rsa.GenerateKey) == r0 + 1 ==> (arg(rsa.GenerateKey, r0, 1) == (pka == 1 ? 4096 : 2048))
 //@   ensures [system-randomness] (calls(rsa.GenerateKey) == r0 + 1 ==> arg(rsa.GenerateKey, r0, 0) == rand.Reader) &&
 //@     (calls(ecdsa.GenerateKey) == e0 + 1 ==> arg(ecdsa.GenerateKey, e0, 1) == rand.Reader) &&
